@@ -21,6 +21,7 @@
  */
 
 #include <ascon/utility.h>
+#include "ascon-verif.h"
 
 int ascon_bytes_to_hex
     (char *out, size_t outlen, const unsigned char *in, size_t inlen,
@@ -35,7 +36,9 @@ int ascon_bytes_to_hex
             out[0] = '\0'; /* For safety in case the caller uses the string */
         return -1;
     }
-    while (inlen > 0) {
+    while (inlen > 0)
+    ASCON_VERIF_LOOP(hex_to)
+    {
         unsigned char ch = *in++;
         out[posn++] = hex_chars[(ch >> 4) & 0x0F];
         out[posn++] = hex_chars[ch & 0x0F];
@@ -52,7 +55,10 @@ int ascon_bytes_from_hex
     int value = 0;
     int nibble = 0;
     int digit = 0;
-    while (inlen > 0) {
+    while (inlen > 0)
+    ASCON_VERIF_LOOP(hex_from)
+    {
+        ASCON_VERIF_GHOST(hex_from_top)
         char ch = *in++;
         --inlen;
         if (ch >= '0' && ch <= '9') {
